@@ -399,19 +399,19 @@ Proof.
   induction 1 as [|c cs H _ IH]; [reflexivity|]. rewrite schc_compress_skip by exact H. exact IH.
 Qed.
 
-Theorem schc_decompress_skip ct c cs p : cm_decompress ct (ctx_rules c) p None = Exc RuleIDMatchError ->
+Theorem schc_decompress_skip ct c cs p : cm_decompress ct (ctx_rules c) p (Some Up) = Exc RuleIDMatchError ->
   schc_decompress ct (c :: cs) p = schc_decompress ct cs p.
 Proof. intros H. cbn [schc_decompress]. rewrite H. reflexivity. Qed.
 
-Theorem schc_decompress_take ct c cs p : cm_decompress ct (ctx_rules c) p None <> Exc RuleIDMatchError ->
-  schc_decompress ct (c :: cs) p = cm_decompress ct (ctx_rules c) p None.
+Theorem schc_decompress_take ct c cs p : cm_decompress ct (ctx_rules c) p (Some Up) <> Exc RuleIDMatchError ->
+  schc_decompress ct (c :: cs) p = cm_decompress ct (ctx_rules c) p (Some Up).
 Proof.
-  cbn [schc_decompress]. destruct (cm_decompress ct (ctx_rules c) p None) as [a|e|]; try reflexivity.
+  cbn [schc_decompress]. destruct (cm_decompress ct (ctx_rules c) p (Some Up)) as [a|e|]; try reflexivity.
   destruct e; try reflexivity. intros H. contradiction H. reflexivity.
 Qed.
 
 Theorem schc_decompress_passthrough ct ctxs p :
-  Forall (fun c => cm_decompress ct (ctx_rules c) p None = Exc RuleIDMatchError) ctxs -> schc_decompress ct ctxs p = Ok p.
+  Forall (fun c => cm_decompress ct (ctx_rules c) p (Some Up) = Exc RuleIDMatchError) ctxs -> schc_decompress ct ctxs p = Ok p.
 Proof.
   induction 1 as [|c cs H _ IH]; [reflexivity|]. rewrite schc_decompress_skip by exact H. exact IH.
 Qed.
